@@ -303,12 +303,13 @@ R.EXTERNALS["monkeytype.typing:field_annotations"] = R.ExtFn(_field_annotations)
 subscript = declare_pred("subscript", L.V, L.V, L.V, tag="Ty")
 tmodule = declare_pred("tmodule", L.V, L.V, tag="str")
 cname = declare_pred("cname", L.V, L.V, tag="str")              # __name__ of a plain class
-BARE = {n: L.atom("typing", n) for n in ("Dict", "List", "Tuple", "Set")}
+BARE = {n: L.atom("typing", n) for n in ("Dict", "List", "Tuple", "Set", "DefaultDict")}
 BARE["Generator"] = L.atom("typing", "Generator")
 BARE["Union"] = UNION_BARE
 for _n in BARE:
     R.SPEC["BARE_" + _n] = ZV(BARE[_n], "Ty")
 R.EXTERNALS["typing.Generator"] = ZV(BARE["Generator"], "Ty")
+R.EXTERNALS["typing.DefaultDict"] = ZV(BARE["DefaultDict"], "Ty")
 ctor_of = declare_pred("ctor_of", L.V, L.V, tag="Ty")          # the bare constructor a rewrite_X method passes for kind X
 
 
@@ -318,6 +319,7 @@ def _ax4():
     ax("sub-List", L.FA(sq, z3.Implies(L.len_(sq) == 1, subscript(BARE["List"], sq) == List_(L.nth(sq, 0))), [subscript(BARE["List"], sq)]))
     ax("sub-Set", L.FA(sq, z3.Implies(L.len_(sq) == 1, subscript(BARE["Set"], sq) == Set_(L.nth(sq, 0))), [subscript(BARE["Set"], sq)]))
     ax("sub-Dict", L.FA(sq, z3.Implies(L.len_(sq) == 2, subscript(BARE["Dict"], sq) == Dict_(L.nth(sq, 0), L.nth(sq, 1))), [subscript(BARE["Dict"], sq)]))
+    ax("sub-DefaultDict", L.FA(sq, z3.Implies(L.len_(sq) == 2, subscript(BARE["DefaultDict"], sq) == DefaultDict_(L.nth(sq, 0), L.nth(sq, 1))), [subscript(BARE["DefaultDict"], sq)]))
     ax("sub-Generator", L.FA(sq, z3.Implies(L.len_(sq) == 3, subscript(BARE["Generator"], sq) == Generator_(L.nth(sq, 0), L.nth(sq, 1), L.nth(sq, 2))),
                             [subscript(BARE["Generator"], sq)]))
     ax("sub-Tuple", L.FA(sq, z3.Implies(z3.Not(z3.And(L.len_(sq) == 2, L.nth(sq, 1) == ELLIPSIS)), subscript(BARE["Tuple"], sq) == Tuple_(sq)),
@@ -325,7 +327,7 @@ def _ax4():
     ax("sub-TupleVar", L.FA(sq, z3.Implies(z3.And(L.len_(sq) == 2, L.nth(sq, 1) == ELLIPSIS), subscript(BARE["Tuple"], sq) == TupleVar_(L.nth(sq, 0))),
                            [subscript(BARE["Tuple"], sq)]))
     ax("sub-Union", L.FA(sq, z3.Implies(L.len_(sq) >= 1, subscript(UNION_BARE, sq) == Union_(sq)), [subscript(UNION_BARE, sq)]))
-    for k, b in (("List", "List"), ("Set", "Set"), ("Dict", "Dict"), ("Generator", "Generator"), ("Tuple", "Tuple"), ("TupleVar", "Tuple"), ("Union", "Union")):
+    for k, b in (("List", "List"), ("Set", "Set"), ("Dict", "Dict"), ("DefaultDict", "DefaultDict"), ("Generator", "Generator"), ("Tuple", "Tuple"), ("TupleVar", "Tuple"), ("Union", "Union")):
         ax("ctor-" + k, L.FA(t, z3.Implies(kind(t) == K[k], ctor_of(t) == BARE[b]), [ctor_of(t)]))
     for k in GENERIC_KINDS:
         ax("module-" + k, L.FA(t, z3.Implies(kind(t) == K[k], tmodule(t) == L.box_str(z3.StringVal("typing"))), [tmodule(t)]))
@@ -364,7 +366,7 @@ def _ty_getitem(ip, r, a, kw, node):
     sv = ip.seq_of(x) if not (isinstance(x, ZV) and base_tag(x.tag) == "Ty") else ZV(L.mk_tuple([x.term]), "seq")
     ctor = r.term
     ok = z3.Or(z3.And(z3.Or(ctor == BARE["List"], ctor == BARE["Set"]), L.len_(sv.term) == 1),
-               z3.And(ctor == BARE["Dict"], L.len_(sv.term) == 2), z3.And(ctor == BARE["Generator"], L.len_(sv.term) == 3),
+               z3.And(z3.Or(ctor == BARE["Dict"], ctor == BARE["DefaultDict"]), L.len_(sv.term) == 2), z3.And(ctor == BARE["Generator"], L.len_(sv.term) == 3),
                ctor == BARE["Tuple"], z3.And(ctor == UNION_BARE, L.len_(sv.term) >= 1))
     ip.partial(ok, "TypeError", node, "subscript-arity")
     return ZV(subscript(ctor, sv.term), "Ty")
